@@ -375,7 +375,21 @@ class Val:
 
 
 class Site:
+    """in_closure: tuple of the closure nodes enclosing the node (outermost first; empty = not in a closure)"""
     __slots__ = ("node", "pc", "frame", "in_closure", "in_loop")
+
+    def pc_has_conditions(self):
+        """is the node guarded by anything but successful `?`s and loop bookkeeping?"""
+        for f, pol in self.pc:
+            if f[0] == "atom" and f[1].kind in ("ok", "forall"):
+                continue
+            if f[0] == "atom" and f[1].kind == "is" and all(a in (("Option::Some",), ("Option::None",)) for a in f[1].alts) and \
+                    is_method(f[1].scruts[0].node, "next") is not None:
+                continue        # for-loop desugaring
+            if f[0] == "not" and f[1][0] == "atom" and f[1][1].kind == "is" and is_method(f[1][1].scruts[0].node, "next") is not None:
+                continue
+            return True
+        return False
 
     def __init__(self, node, pc, frame, in_closure, in_loop):
         self.node = node
@@ -427,15 +441,26 @@ class Sem:
                 sc = n["scrut"]
                 if is_try(n):
                     continue
+                loopvar = n.get("src") == "ForLoopDesugar" and sc.get("k") == "Call" and norm(sc.get("callee", "")).endswith("Iterator::next")
                 for a in n["arms"]:
-                    bind_pattern(frame, a["pat"], sc, (), "pat")
+                    bind_pattern(frame, a["pat"], sc, (), "loopvar" if loopvar else "pat")
             elif k == "LetExpr":
                 bind_pattern(frame, n["pat"], n["init"], (), "pat")
             elif k == "Closure":
                 for i, p in enumerate(n.get("params", [])):
                     for q in walk(p):
                         if q.get("k") == "PBinding":
-                            frame.binds[q["id"]] = Bind("closure-param", q["name"], None, frame, (), _mut(q), index=i, pat=q, owner=n)
+                            frame.binds[q["id"]] = Bind("closure-param", q["name"], None, frame, (("elem",),), _mut(q), index=i, pat=q, owner=n)
+        # a closure passed to a method call: its parameters stand for (parts of) the receiver
+        for n in walk(h["body"]):
+            if n.get("k") == "MethodCall":
+                for a in n["args"]:
+                    c = closure_of(a)
+                    if c is not None:
+                        for p in c.get("params", []):
+                            for q in walk(p):
+                                if q.get("k") == "PBinding" and q["id"] in frame.binds:
+                                    frame.binds[q["id"]].expr = n["recv"]
         for n in walk(h["body"]):
             if n.get("k") in ("Assign", "AssignOp"):
                 l = n["l"]
@@ -475,7 +500,7 @@ class Sem:
                 return Val(n, frame, proj)
             if b.expr is None or b.assigns or (b.mutable and b.assigns):
                 return Val(n, frame, proj, b)
-            if b.kind == "pat":
+            if b.kind in ("pat", "loopvar"):
                 # a pattern binding denotes a part of the scrutinee: stop, but tell what it is part of
                 return Val(n, frame, proj, b)
             if b.proj:
@@ -689,7 +714,7 @@ class Sem:
     # -- the walk
     def sites(self):
         if self._sites is None:
-            self._sites = list(self._visit(self.h["body"], (), self.root, False, False))
+            self._sites = list(self._visit(self.h["body"], (), self.root, (), False))
         return self._sites
 
     def _narrow_after(self, st, frame):
@@ -728,6 +753,22 @@ class Sem:
             t = self.survive(e["then"], frame, depth + 1)
             f = self.survive(e["else"], frame, depth + 1) if "else" in e else ("true",)
             return f_or([f_and([c, t]), f_and([F_not(c), f])])
+        if k == "Match" and e.get("src") == "ForLoopDesugar":
+            sc = strip(e["scrut"])
+            if sc.get("k") == "Call" and norm(sc.get("callee", "")).endswith("IntoIterator::into_iter") and sc.get("args"):
+                # after `for x in it { .. }` without a user-written break, every iteration ran to its end
+                user_breaks = [b for b in exprs(e, "Break", into_closures=False) if not b.get("x")]
+                body = None
+                for m in exprs(e, "Match"):
+                    if m is not e and m.get("src") == "ForLoopDesugar":
+                        for a in m["arms"]:
+                            if pat_repr(a["pat"]).startswith("Option::Some"):
+                                body = a
+                        break
+                if body is not None and not user_breaks:
+                    fb = self.survive(body["body"], frame, depth + 1)
+                    return F_atom(Atom("forall", node=e, l=Val(peel(sc["args"][0]), frame), r=fb, scruts=[body["pat"]], frame=frame))
+            return ("true",)
         if k == "Match" and not is_try(e):
             parts = []
             prev = []
@@ -823,7 +864,7 @@ class Sem:
             yield from self._visit(n["r"], pc + ((f, n["op"] == "And"),), frame, in_closure, in_loop)
             return
         if k == "Closure":
-            yield from self._visit(n["body"], pc, frame, True, in_loop)
+            yield from self._visit(n["body"], pc, frame, tuple(in_closure) + (n,), in_loop)
             return
         if k == "Loop":
             yield from self._visit(n["body"], pc, frame, in_closure, True)
@@ -1015,6 +1056,8 @@ def weak_cmps(pc):
                 out.append(_canon(a.op, a.l.node, a.r.node, pol) + (a.frame, certain))
             elif a.kind in ("call", "opaque") and a.node is not None:
                 from_expr(a.node, pol, a.frame)
+            elif a.kind == "forall" and pol:
+                go(a.r, True, False)
     for f, pol in pc:
         go(f, pol, True)
     return out
@@ -1171,4 +1214,125 @@ def refuted(pc):
             out.append(f[1])
         elif f[0] != "not" and not pol:
             out.append(f)
+    return out
+
+
+def within(site, closure_node):
+    """the site lies inside the closure (also when it is in a helper inlined from inside the closure)"""
+    return any(c is closure_node for c in site.in_closure)
+
+
+def provenance(S, node, frame, limit=40, fields=False):
+    """where a value comes from: (root Bind or None, root node, frame, [methods applied from the root to the value]).
+    Follows method-call receivers, UFCS calls on their first argument, field/index/deref, immutable lets, helper
+    arguments and pattern bindings (a binding taken out of a scrutinee counts as derived from the scrutinee)."""
+    methods = []
+    while limit > 0:
+        limit -= 1
+        n = peel(node)
+        k = n.get("k")
+        if k == "MethodCall":
+            methods.append(n["m"])
+            node = n["recv"]
+            continue
+        if k == "Call" and n.get("args") and not str(n.get("callee_kind", "")).startswith("Ctor"):
+            methods.append(last_seg(norm(n.get("callee", "?"))))
+            node = n["args"][0]
+            continue
+        if k == "Call" and len(n.get("args", [])) == 1:
+            # a one-field constructor wraps its argument
+            node = n["args"][0]
+            continue
+        if k in ("Field", "Index", "Cast"):
+            if fields and k == "Field":
+                methods.append("." + n["name"])
+            node = n["e"]
+            continue
+        if k == "Unary" and n.get("op") == "Deref":
+            node = n["e"]
+            continue
+        b = S.lookup(n, frame)
+        if b is None:
+            return None, n, frame, list(reversed(methods))
+        if b.kind == "closure-param" and b.expr is not None:
+            methods.append("<closure-arg>")
+            node, frame = b.expr, b.frame
+            continue
+        if b.kind == "loopvar" and b.expr is not None:
+            e = peel(b.expr)
+            if e.get("k") == "Call" and e.get("args"):
+                methods.append("<for>")
+                node, frame = e["args"][0], b.frame
+                continue
+        if b.expr is None or (b.assigns and b.kind in ("let", "arg")):
+            return b, n, frame, list(reversed(methods))
+        node, frame = b.expr, b.frame
+    return None, peel(node), frame, list(reversed(methods))
+
+
+def for_loops(S, pred=None):
+    """for-loops: [(site of the desugared match, loop-variable pattern, iterated expression node)]"""
+    out = []
+    for s in S.sites():
+        n = s.node
+        if n.get("k") == "Match" and n.get("src") == "ForLoopDesugar":
+            sc = strip(n["scrut"])
+            if not (sc.get("k") == "Call" and norm(sc.get("callee", "")).endswith("IntoIterator::into_iter")):
+                continue
+            it = sc["args"][0] if sc.get("args") else sc
+            pat = None
+            for m in exprs(n, "Match"):
+                if m is n:
+                    continue
+                for a in m["arms"]:
+                    if pat_repr(a["pat"]).startswith("Option::Some"):
+                        pat = a["pat"]
+                break
+            out.append((s, pat, it))
+    return out
+
+
+def tail_value(S, node, frame, depth=0):
+    """the expression a block / inlined helper call finally evaluates to: (node, frame)"""
+    n = strip(node)
+    while n.get("k") == "Block" and n.get("expr") is not None:
+        n = strip(n["expr"])
+    if n.get("k") in ("Call", "MethodCall") and depth < 3:
+        h2 = S.should_inline(n, frame)
+        if h2 is not None:
+            f2 = S._enter(h2, n, frame)
+            return tail_value(S, h2["body"], f2, depth + 1)
+    return n, frame
+
+
+TERMINAL_SEARCH = {"find": ("Option::None", "true-means-bad"), "position": ("Option::None", "true-means-bad"),
+                   "find_map": ("Option::None", "some-means-bad"), "any": (False, "true-means-bad"), "all": (True, "false-means-bad")}
+
+
+def whole_collection_checks(S, pc):
+    """evidence in a path condition that *every* element of a collection passed a test:
+    [(root Bind of the collection, methods on the way to the elements, test, frame)] where test is the loop-body survive
+    formula (for-loops) or the closure node of find/any/all/position (iterator searches)."""
+    out = []
+    lits, _ = literals(pc)
+    for a, pol in lits:
+        if a.kind == "forall" and pol:
+            b, _, _, ms = provenance(S, a.l.node, a.l.frame)
+            out.append((b, ms, ("formula", a.r, a.scruts[0]), a.frame))
+        elif a.kind == "is" and len(a.scruts) == 1:
+            v = S.resolve(a.scruts[0].node, a.scruts[0].frame)
+            n = peel(v.node)
+            if n.get("k") == "MethodCall" and n["m"] in TERMINAL_SEARCH and n.get("args"):
+                want, _ = TERMINAL_SEARCH[n["m"]]
+                alts = {x[0] for x in a.alts}
+                if isinstance(want, str) and ((pol and alts == {want}) or (not pol and alts == {"Option::Some"} and want == "Option::None")):
+                    b, _, _, ms = provenance(S, n["recv"], v.frame)
+                    out.append((b, ms, ("closure", n["args"][0], n["m"]), v.frame))
+        elif a.kind == "call":
+            n = peel(a.node)
+            if n.get("k") == "MethodCall" and n["m"] in ("any", "all") and n.get("args"):
+                want, _ = TERMINAL_SEARCH[n["m"]]
+                if pol == want:
+                    b, _, _, ms = provenance(S, n["recv"], a.frame)
+                    out.append((b, ms, ("closure", n["args"][0], n["m"]), a.frame))
     return out
